@@ -459,3 +459,24 @@ def y5(ctx, F):
     ctx.check("C20.Y5", "every-move-recorded-in-order", ok and src_ok, fn=fn["path"], file=fn["file"], line=fn["span"][0],
               what="the record must contain pgn_notation of every move of the move stack, in order",
               found={"unconditional_emit": ok, "source_is_move_stack_mapped_through_pgn_notation": src_ok})
+    # consecutive move texts are kept apart: in the loop of the move text an unconditional emission of a literal separator follows
+    # (or precedes) it, or the text itself is built with one (format!("{} ", ..)); without it two moves read as one word
+    sep = []
+    if mv:
+        lb0 = [b[1] for b in loop_binders(mv[0][3])]
+        for e in em:
+            if e is mv[0] or [b[1] for b in loop_binders(e[3])] != lb0 or [x for x in plain_guards(e[3]) if x[0] == "if"]:
+                continue
+            v = e[2]
+            lit = v[1] if v[0] == "lit" else None
+            if isinstance(lit, int) and 0 < lit < 128:
+                lit = chr(lit)
+            if isinstance(lit, str) and lit and all(ch in " \n\t,;" for ch in lit):
+                sep.append(repr(lit))
+        mtxt = hir.fmt(mv[0][2], 300)
+        if not sep and ("format" in mtxt and ('" ' in mtxt or ' "' in mtxt)):
+            sep.append("inside the formatted move text")
+    ctx.check("C20.Y5", "moves-of-the-record-are-separated", bool(sep) or not mv, fn=fn["path"], file=fn["file"], line=fn["span"][0],
+              what="nothing separates one move text of the record from the next: the record runs the moves together and no longer names "
+                   "each move (origin, destination, capture mark read as part of the neighbour)",
+              expected="an unconditional separator (space / line break) emitted with every move text", found=sep or "none")
